@@ -38,6 +38,10 @@ def states(tier, seed):
     # process, both orders: each must still agree with the reference frame (no state shared between instances)
     for (a, b), ny, model in itertools.product(itertools.permutations(["left", "right", "full"], 2), [3, 5], ["tube", "wingbox"]):
         st.append(dict(part="sequence", sides=[a, b], ny=ny, model=model, layout="sweptdi", sec="varying", fam=fam))
+    # interleaved set-ups of beams of different materials: A set up, B (other material) set up, A analysed
+    for mat, omat, (side, ny), model in itertools.product(["alu", "steel"], ["alu", "steel"], [("left", 3), ("full", 5)], ["tube", "wingbox"]):
+        if mat != omat:
+            st.append(dict(part="frame", layout="sweptdi", side=side, ny=ny, sec="varying", model=model, mat=mat, other_first=dict(layout="swept", side="left", ny=3, sec="uniform", model=model, mat=omat, fam=fam), fam=fam))
     return st, 0
 
 
@@ -75,12 +79,15 @@ def sections(s, ne):
     return A, I, I.copy(), 2 * I
 
 
-def beam_problem(mesh, sym, model, A, Iy, Iz, J):
+MATS = {"alu": (70.0e9, 30.0e9), "steel": (200.0e9, 77.0e9)}
+
+
+def beam_problem(mesh, sym, model, A, Iy, Iz, J, mat="alu"):
     from openaerostruct.structures.spatial_beam_setup import SpatialBeamSetup
     from openaerostruct.structures.spatial_beam_states import SpatialBeamStates
 
     surf = builders.struct_surface("w", mesh, sym, model)
-    surf["E"], surf["G"] = E_, G_
+    surf["E"], surf["G"] = MATS[mat]
     p = om.Problem(reports=False)
     ny = mesh.shape[1]
     ivc = om.IndepVarComp()
@@ -123,11 +130,16 @@ def part_frame(s):
     ny = s["ny"]
     sym = s["side"] != "full"
     A, Iy, Iz, J = sections(s, ny - 1)
-    p = beam_problem(m, sym, s["model"], A, Iy, Iz, J)
+    mat = s.get("mat", "alu")
+    p = beam_problem(m, sym, s["model"], A, Iy, Iz, J, mat=mat)
+    if s.get("other_first"):
+        # another beam of ANOTHER material is set up (not run) between this beam's set-up and its analysis
+        sO = s["other_first"]
+        beam_problem(nodes_of(sO), sO["side"] != "full", sO["model"], *sections(sO, sO["ny"] - 1), mat=sO.get("mat", "alu"))
     U = unit_solutions(p, ny)
     nodes = p["nodes"].copy()
     root = root_index(s["side"], ny)
-    K = ref_beam.assemble(nodes, A, Iy, Iz, J, E_, G_)
+    K = ref_beam.assemble(nodes, A, Iy, Iz, J, *MATS[mat])
     free = np.array([i for i in range(6 * ny) if i // 6 != root])
     Uref = np.zeros_like(U)
     Uref[np.ix_(free, free)] = np.linalg.inv(K[np.ix_(free, free)])
